@@ -132,6 +132,7 @@ type flowGen struct {
 	tries int
 	stats map[string]int
 	lastErr error
+	curKind string
 	l     *loaded  // the axiom listing
 	rej   []string // sources of candidate programs the bounds checker rejected (scalar mode)
 }
@@ -341,7 +342,7 @@ func (g *flowGen) accepts(extra ...string) bool {
 	src := g.p.render(extra...)
 	_, err := g.fr.check(src)
 	g.lastErr = err
-	if err != nil && g.p.Scalar && len(g.rej) < 8 && flowBoundsPhaseError(err) {
+	if err != nil && g.p.Scalar && (len(g.rej) < 8 || strings.Contains(g.curKind, "violating")) && flowBoundsPhaseError(err) {
 		g.rej = append(g.rej, src)
 	}
 	return err == nil
@@ -449,6 +450,8 @@ func (g *flowGen) axiomUse() []string {
 }
 
 func (g *flowGen) try(kind string, lines ...string) bool {
+	g.curKind = kind
+	defer func() { g.curKind = "" }()
 	if g.accepts(lines...) {
 		for _, l := range lines {
 			g.p.push(l)
